@@ -912,6 +912,16 @@ func eqnil(t types.Type, x, y value) bool {
 }
 
 func (i *interpreter) unop(instr *ssa.UnOp, x value) value {
+	if instr.Op == token.ARROW {
+		v, ok := i.chanRecv(x.(chan value))
+		if !ok {
+			v = zero(instr.X.Type().Underlying().(*types.Chan).Elem())
+		}
+		if instr.CommaOk {
+			v = tuple{v, ok}
+		}
+		return v
+	}
 	if sx, ok := x.(sym); ok {
 		return i.unopS(instr.Op, sx)
 	}
